@@ -234,7 +234,10 @@ func (m *Model) validateShapes(inputTensors Tensors) error {
 	for name, shapeExpected := range m.InputShapes() {
 		// If the input is a parameter, the user does not have to provide a tensor for it.
 		if _, ok := m.parameters[name]; ok {
-			continue
+			// A tensor that is provided nevertheless replaces the parameter, so it is validated.
+			if _, isProvided := inputTensors[name]; !isProvided {
+				continue
+			}
 		}
 
 		tensor, ok := inputTensors[name]
